@@ -55,7 +55,7 @@ pub mod nd {
 #[cfg(kani)]
 macro_rules! cover {
     ($c:expr, $m:expr) => {
-        cover!($c, $m)
+        kani::cover!($c, $m)
     };
 }
 #[cfg(not(kani))]
@@ -196,7 +196,7 @@ pub mod proofs {
                 unsafe {
                     let mut i = 0;
                     while i < $steps {
-                        step(&a, &mut g, limit, 2 * $cap, $observe);
+                        step(&a, &mut g, limit, 2 * ($cap), $observe);
                         i += 1;
                     }
                     finish(&a, &mut g);
